@@ -1,6 +1,7 @@
 import PpciVerif.Proofs.CLower
 import PpciVerif.Proofs.CLayout
 import PpciVerif.Proofs.CAssign
+import PpciVerif.Proofs.CSwitch
 import PpciVerif.Gen.CTypes
 /-!
 # C01 — the C front-end preserves the meaning of defined-behaviour C programs
@@ -263,5 +264,32 @@ example : Model.CAssign.events (.compound (.index (.bin (.call 0 (.lval (.var 0)
 example : (Model.CAssign.eventsTwice (.compound (.index (.bin (.call 0 (.lval (.var 0))) .const)) .const)).count (.call 0) = 2 ∧
     (Model.CAssign.eventsTwice (.compound (.index (.bin (.incdec (.var 3)) .const)) .const)).countP Model.CAssign.Ev.isStore = 3 := by
   decide
+
+/-! ### switch: the label dictionary is saved and restored around nested switches -/
+
+/-- **Every switch dispatches on exactly the case / default labels that lexically belong to it**, in source order,
+    whatever the nesting of switches, blocks, `if`s and loops; and lowering any nested statement leaves the enclosing
+    switch's dictionary unchanged except for the labels that statement itself contributes (a nested switch contributes
+    none: `gen_switch` saves `switch_options` on entry and restores it on exit).  `Model.CSwitch.gen` is compared with
+    the dispatch chains of the real emitted function for every generated program on every run. -/
+theorem switch_labels_lexical (l : Model.CSwitch.Sts) (o : Model.CSwitch.Opts) :
+    Model.CSwitch.genL l o = (o ++ Model.CSwitch.ownL l, Model.CSwitch.recsL l) :=
+  Proofs.CSwitch.genL_eq l o
+
+/-- in particular a nested switch does not touch the enclosing switch's labels -/
+theorem nested_switch_restores (b : Model.CSwitch.Sts) (o : Model.CSwitch.Opts) :
+    (Model.CSwitch.gen (.switch b) o).1 = o := by
+  rw [Proofs.CSwitch.gen_eq]; simp [Model.CSwitch.own]
+
+/-- non-vacuity and the seeded variant: `switch (a) { default: …; case 0: switch (b) { case 1: … } }` — the real bookkeeping
+    gives the outer switch its default; a default block kept in a field that is reset on entry of the inner switch but not
+    restored on exit loses it (and an inner default would leak to the outer switch) -/
+example :
+    (Model.CSwitch.genL (.cons (.switch (.cons .default (.cons (.case 0) (.cons (.switch (.cons (.case 1) .nil)) .nil)))) .nil) []).2
+      = [⟨[0], true⟩, ⟨[1], false⟩] ∧
+    (Model.CSwitch.genBadL (.cons (.switch (.cons .default (.cons (.case 0) (.cons (.switch (.cons (.case 1) .nil)) .nil)))) .nil)
+      ⟨[], false⟩).2 = [⟨[0], false⟩, ⟨[1], false⟩] ∧
+    (Model.CSwitch.genBadL (.cons (.switch (.cons (.case 0) (.cons (.switch (.cons (.case 1) (.cons .default .nil))) .nil))) .nil)
+      ⟨[], false⟩).2 = [⟨[0], true⟩, ⟨[1], true⟩] := by decide
 
 end Props.C01
